@@ -176,7 +176,7 @@ func (f *Frame) exec(in ssa.Instruction) {
 			txt := f.p.srcText(x.Pos(), func(n ast.Node) bool { _, ok := n.(*ast.CallExpr); return ok })
 			if !strings.Contains(x.String(), "blocking select matched no case") {
 				lbl := f.label("panic", orDefault(txt, "panic"))
-				vc.addObl(&Obligation{Name: f.rootKey() + "#safe:" + lbl, Kind: "safe", Tags: f.tags, Guard: f.guard, Cond: "false", Pos: f.p.posString(x.Pos())})
+				vc.addObl(&Obligation{Name: f.rootKey() + "#safe:" + lbl, Kind: "safe", Tags: f.safeTags(), Guard: f.guard, Cond: "false", Pos: f.p.posString(x.Pos())})
 			}
 		}
 		// path ends
@@ -764,7 +764,8 @@ func (f *Frame) instrWrites(in ssa.Instruction) ([]string, bool) {
 		return []string{"next", vc.regMem(x.Type().Underlying().(*types.Slice).Elem())}, false
 	case *ssa.MakeChan:
 		vc.regComp("ChanClosed", "(Array Int Bool)")
-		return append([]string{"next", "ChanClosed"}, f.chanComps(x.Type())...), false
+		cn, cv := vc.regChan(x.Type())
+		return []string{"next", "ChanClosed", cn, cv}, false
 	case *ssa.MakeClosure:
 		return []string{"next"}, false
 	case *ssa.Convert:
